@@ -224,6 +224,9 @@ class Register:
         step = resolve_annotated_value(step)
         stop = resolve_annotated_value(stop)
 
+        if step == 0:
+            raise JaqalError(f"Step of map {self.name} cannot be zero.")
+
         return len(range(start, stop, step))
 
     def resolve_qubit(self, idx, context=None):
